@@ -455,6 +455,17 @@ class Lists(Relation):
             def extend(self, i, rs, as_regions):
                 self._do(['extend', i, rs, as_regions])
 
+            @rule(i=st.integers(0, 5), j=st.integers(0, 5),
+                  form=st.integers(0, 2))
+            def extend_from(self, i, j, form):
+                # the argument is an object that lives on: another tracked
+                # list, its .regions, or a plain list the caller keeps
+                self._do(['extend_from', i, j, form])
+
+            @rule()
+            def new_empty(self):
+                self._do(['new_empty', 0])
+
             @rule(i=st.integers(0, 5), pos=st.integers(-4, 6),
                   r=st.integers(0, 7))
             def insert(self, i, pos, r):
@@ -489,6 +500,7 @@ class Lists(Relation):
                     if op[0] in ('slice', 'copy'):
                         seen_derive = True
                     elif seen_derive and op[0] in ('append', 'extend',
+                                                   'extend_from',
                                                    'insert', 'pop', 'reverse'):
                         nt = True
                 ctx._spec = {'history': list(self.hist)}
@@ -508,6 +520,9 @@ class ListModel:
                      for i in range(8)]
         self.real = [Regions([self.pool[0], self.pool[1], self.pool[2]])]
         self.model = [[self.pool[0], self.pool[1], self.pool[2]]]
+        # plain lists the caller passes to extend() and keeps
+        self.args = [[self.pool[1], self.pool[4]], [self.pool[6]], []]
+        self.args_model = [list(a) for a in self.args]
 
     def _pick(self, i):
         i %= len(self.real)
@@ -526,6 +541,21 @@ class ListModel:
             items = [self.pool[r] for r in op[2]]
             real.extend(Regions(list(items)) if op[3] else list(items))
             model.extend(items)
+        elif kind == 'extend_from':
+            j = self._pick(op[2])
+            if op[3] == 0:
+                arg, items = self.real[j], list(self.model[j])
+            elif op[3] == 1:
+                arg, items = self.real[j].regions, list(self.model[j])
+            else:
+                k = op[2] % len(self.args)
+                arg, items = self.args[k], list(self.args_model[k])
+            real.extend(arg)
+            model.extend(items)
+        elif kind == 'new_empty':
+            if len(self.real) < 6:
+                self.real.append(Regions([]))
+                self.model.append([])
         elif kind == 'insert':
             real.insert(op[2], self.pool[op[3]])
             model.insert(op[2], self.pool[op[3]])
@@ -583,6 +613,11 @@ class ListModel:
                       f'list #{j} (edited list #{i}): '
                       f'{[getattr(a, "radius", None) for a in r.regions]} vs '
                       f'{[getattr(a, "radius", None) for a in m]}')
+        for k, (a, m) in enumerate(zip(self.args, self.args_model)):
+            ctx.check(len(a) == len(m) and all(x is y for x, y in zip(a, m)),
+                      f'{kind} | a list that was only passed to extend() '
+                      'has changed',
+                      f'argument list #{k}: {len(a)} elements, had {len(m)}')
         ctx.count('steps')
 
 
